@@ -11,8 +11,9 @@ structure St where
   dicts : List (Nat × Nat)
   conns : List (Nat × Nat)
   callers : List (Nat × Nat)
+  classes : List (Nat × Nat)
 
-def St.init : St := ⟨Heap.empty, [], [], [], []⟩
+def St.init : St := ⟨Heap.empty, [], [], [], [], []⟩
 
 def find (t : List (Nat × Nat)) (n : Nat) : Option Nat := (t.find? (·.1 = n)).map (·.2)
 
@@ -102,6 +103,33 @@ def parsePairs (s : String) : Option UDict :=
     | [k, v] => do some (← parseCps k, ← parseCps v)
     | _ => none
 
+def parseVal (s : String) : Option HVal :=
+  if s = "T" then some (.bool true) else if s = "F" then some (.bool false) else if s = "N" then some .pyNone
+  else if s.startsWith "s" then (parseCps (s.drop 1).toString).map .str
+  else if s.startsWith "i" then (parseInt (s.drop 1).toString).map .int
+  else none
+
+def parseTypedPairs (s : String) : Option Dict :=
+  if s = "-" then some [] else
+  (s.splitOn ";").mapM fun kv =>
+    match kv.splitOn "=" with
+    | [k, v] => do some (← parseCps k, ← parseVal v)
+    | _ => none
+
+def parseNames (t : List (Nat × Nat)) (s : String) : Option (List Nat) :=
+  if s = "-" then some [] else (s.splitOn ";").mapM fun n => n.toNat?.bind (find t)
+
+def parseCompsTok (s : String) : Option Comps :=
+  if s = "n" then some none else if s = "e" then some (some [])
+  else ((s.splitOn "+").mapM parseCps).map some
+
+def parseWrappers (s : String) : Option (List (Str × Comps)) :=
+  if s = "-" then some [] else
+  (s.splitOn "/").mapM fun w =>
+    match w.splitOn "=" with
+    | [m, c] => do some (← parseCps m, ← parseCompsTok c)
+    | _ => none
+
 def parseTarget (st : St) (s : String) : Option Target :=
   match s.splitOn "=" with
   | ["c", n] => do some (.conn (← find st.conns (← n.toNat?)))
@@ -170,6 +198,10 @@ def showHVal : HVal → String
   | .str s => "s" ++ showCps s
   | .bytes s => "b" ++ showCps s
   | .genId => "g"
+  | .int n => "i" ++ toString n
+  | .bool true => "T"
+  | .bool false => "F"
+  | .pyNone => "N"
 
 def showSent (s : Sent) (same : Bool) : String :=
   match s.resp with
@@ -227,9 +259,22 @@ def handle (st : St) (line : String) : St × String :=
     match name.toNat?.bind (find st.conns), parseAdapter a with
     | some c, some ad => exec st (.add c ad) noBind
     | _, _ => bad
-  | ["caller", name, target, pmap] =>
-    match name.toNat?, parseTarget st target, parsePairs pmap with
-    | some nm, some t, some pm => exec st (.newCaller t pm) fun s n => { s with callers := (nm, n) :: s.callers }
+  | ["pairs", name, _kind, kvs] =>
+    match name.toNat?, parseTypedPairs kvs with
+    | some nm, some d => exec st (.newParams d) fun s n => { s with dicts := (nm, n) :: s.dicts }
+    | _, _ => bad
+  | ["class", name, mro, bases, pmap, wrappers] =>
+    -- the class's own name stands first in its mro: bind it to the reference it is going to get
+    let self := st.heap.classes.length
+    match name.toNat?, (if pmap = "~" then some none else (parsePairs pmap).map some), parseWrappers wrappers with
+    | some nm, some pm, some ws =>
+      match parseNames ((nm, self) :: st.classes) mro, parseNames st.classes bases with
+      | some m, some b => exec st (.newClass b m pm ws) fun s n => { s with classes := (nm, n) :: s.classes }
+      | _, _ => bad
+    | _, _, _ => bad
+  | ["caller", name, target, cls] =>
+    match name.toNat?, parseTarget st target, cls.toNat?.bind (find st.classes) with
+    | some nm, some t, some c => exec st (.newCaller t c) fun s n => { s with callers := (nm, n) :: s.callers }
     | _, _, _ => bad
   | ["clone", name, k, own] =>
     match name.toNat?, k.toNat?.bind (find st.callers), parseOwn st own with
@@ -243,9 +288,9 @@ def handle (st : St) (line : String) : St × String :=
     match name.toNat?, k.toNat?.bind (find st.callers), parseCps pfx with
     | some nm, some kr, some p => exec st (.cached kr p) fun s n => { s with conns := (nm, n) :: s.conns }
     | _, _, _ => bad
-  | "call" :: k :: comps :: rest =>
-    match k.toNat?.bind (find st.callers), parseComps comps, parseArgs st rest with
-    | some kr, some cs, some a => exec st (.call kr cs a) noBind
+  | "call" :: k :: m :: rest =>
+    match k.toNat?.bind (find st.callers), parseCps m, parseArgs st rest with
+    | some kr, some mn, some a => exec st (.call kr mn a) noBind
     | _, _, _ => bad
   | "req" :: c :: rest =>
     match c.toNat?.bind (find st.conns), parseArgs st rest with
